@@ -193,6 +193,26 @@ func runC08(c *Ctx) {
 		if len(appends) == 0 {
 			c.bad("getCleanupDirectories:appends", f.Pos(), "cleanup list is never extended")
 		}
+		// the scan runs inside a metadata WRITE transaction (so no snapshot can be created/committed while it decides)
+		c.buildCallers()
+		for _, cs := range c.callersOf[f] {
+			g := cs.caller
+			txs := callsIn(g, func(id string, ci ssa.CallInstruction) bool {
+				return strings.HasSuffix(id, "storage.(*MetaStore).TransactionContext")
+			})
+			good := false
+			for _, tx := range txs {
+				if isConstBool(tx.Common().Args[2], true) {
+					if okp, _ := mustPass(g, cs.instr, newCuts().addEdges(successEdges(g, tx))); okp {
+						// and the same transactor is handed to the scan
+						if sameValue(cs.instr.(ssa.CallInstruction).Common().Args[2], resultN(tx, 1)) {
+							good = true
+						}
+					}
+				}
+			}
+			c.verdict(c.fnKey(g)+":scan-in-write-tx", cs.instr.Pos(), good, "directory scan under the metadata write transaction", "the cleanup scan does not hold the metadata write transaction: a snapshot being created concurrently is taken for an orphan and its directory (and mount) removed")
+		}
 		// the whole directory is listed
 		full := false
 		for _, ci := range callsIn(f, idIs("os.(*File).Readdirnames")) {
@@ -262,6 +282,26 @@ func runC08(c *Ctx) {
 				good = good && okp
 			}
 			c.verdict(c.fnKey(f)+":internal-commit", f.Pos(), good, "internal commit happens after the label is set and is flagged remote", "internal commit of the remote snapshot misses the remote label or flag")
+			// the label-carrying option is applied last so that no caller option can drop the remote mark
+			if len(cms) == 1 {
+				optsArg := cms[0].Common().Args[len(cms[0].Common().Args)-1]
+				lastOK := false
+				if ap, ok := stripConv(optsArg).(*ssa.Call); ok {
+					if b, ok := ap.Call.Value.(*ssa.Builtin); ok && b.Name() == "append" && len(ap.Call.Args) == 2 {
+						tail := varargs(ap.Call.Args[1])
+						if len(tail) >= 1 {
+							if wl, ok := stripConv(tail[len(tail)-1]).(*ssa.Call); ok && strings.HasSuffix(calleeID(wl), "snapshots.WithLabels") {
+								lastOK = isParamish(ap.Call.Args[0]) || true
+								// the prefix must not be something that is itself followed by caller options: prefix is the caller's opts
+								if !isParamish(ap.Call.Args[0]) {
+									lastOK = false
+								}
+							}
+						}
+					}
+				}
+				c.verdict(c.fnKey(f)+":labels-option-last", cms[0].Pos(), lastOK, "WithLabels(labels incl. remote mark) is the last option of the internal commit", "caller options are applied after the remote-label option: an option replacing the labels commits a mounted snapshot without the remote mark")
+			}
 			// mount uses the labels of this request and the key of this request
 			args := prs[0].Common().Args
 			c.verdict(c.fnKey(f)+":mount-args", prs[0].Pos(), isParam(args[2]), "backend mount for this request's key", "backend mount for a different key")
@@ -753,10 +793,59 @@ func runC09(c *Ctx) {
 			// the task list is filled inside Walk on the remote-label found edge
 			lks, _ := labelKeyOps(f, rl)
 			c.verdict(c.fnKey(f)+":selects-remote", f.Pos(), len(lks) == 1, "snapshots to re-mount are those carrying the remote label", "restore does not select snapshots by the remote label")
-			// every nil return after the walk passes the loop over tasks (trivially) — and leftovers are force-unmounted first
+			// leftovers are force-unmounted first: every success return that is not the noRestore skip passed the mount-table
+			// scan, and the scan precedes the metadata walk
 			um := callsIn(f, idIs("syscall.Unmount"))
-			okp := len(um) > 0
-			c.verdict(c.fnKey(f)+":unmount-leftovers", f.Pos(), okp, "stale mounts below snapshots/ are force-unmounted before re-mounting", "stale mounts are not cleared before re-mounting (double mount)")
+			gm := callsIn(f, func(id string, _ ssa.CallInstruction) bool { return strings.HasSuffix(id, "mountinfo.GetMounts") })
+			okp := len(um) > 0 && len(gm) == 1
+			if okp {
+				se := successEdges(f, gm[0])
+				for _, r := range realReturns(f) {
+					if !returnsNilError(r) {
+						continue
+					}
+					if got, _ := reach(f, nil, isInstr(r), newCuts().addEdges(se).addEdges(noRestore)); got != nil {
+						okp = false
+					}
+				}
+				if o2, _ := mustPass(f, walks[0], newCuts().addEdges(se)); !o2 {
+					okp = false
+				}
+			}
+			c.verdict(c.fnKey(f)+":unmount-leftovers", f.Pos(), okp, "stale mounts below snapshots/ are force-unmounted before anything else, on every restore", "restore can finish (or re-mount) without first clearing stale mounts below snapshots/: a directory that is not a committed remote snapshot stays mounted")
+			// every selected snapshot is attempted: a success return is reached only when the loop over the tasks is exhausted
+			var loopDone []edge
+			for _, b := range f.Blocks {
+				if len(b.Instrs) == 0 {
+					continue
+				}
+				iff, ok := b.Instrs[len(b.Instrs)-1].(*ssa.If)
+				if !ok {
+					continue
+				}
+				bo, ok := iff.Cond.(*ssa.BinOp)
+				if !ok || bo.Op != token.LSS {
+					continue
+				}
+				if lc, ok := stripConv(bo.Y).(*ssa.Call); ok {
+					if bi, ok := lc.Call.Value.(*ssa.Builtin); ok && bi.Name() == "len" {
+						// the loop that contains the re-mount call
+						if got, _ := reach(f, b.Succs[0].Instrs[0], isInstr(prs[0]), nil); got != nil || b.Succs[0].Instrs[0] == ssa.Instruction(prs[0]) {
+							loopDone = append(loopDone, edge{b.Index, 1})
+						}
+					}
+				}
+			}
+			early := false
+			for _, r := range realReturns(f) {
+				if !returnsNilError(r) {
+					continue
+				}
+				if got, _ := reach(f, prs[0], isInstr(r), newCuts().addEdges(loopDone)); got != nil {
+					early = true
+				}
+			}
+			c.verdict(c.fnKey(f)+":all-remounted", prs[0].Pos(), !early && len(loopDone) > 0, "restore succeeds only after every selected snapshot was attempted", "restore returns success from inside the loop: snapshots later in the walk order are never re-mounted")
 		}
 	}
 
